@@ -41,9 +41,9 @@ MANIFEST = {"C06": dict(
 HARNESS = ["zz_verif_forwarder_test.go"]
 # (cfg, must_hold, workers, timeout)
 PROFILES = {
-    "quick": dict(design=[("fwd_k1.cfg", True, 6, 150), ("fwd_t3s.cfg", True, 3, 150), ("fwd_live_q.cfg", True, 3, 150),
-                          ("mut_nolatchmsg.cfg", False, 1, 120)],
-                  gen="sim_t.cfg", keep=3),
+    "quick": dict(design=[("fwd_k1.cfg", True, 6, 900), ("fwd_t3s.cfg", True, 3, 900), ("fwd_live_q.cfg", True, 3, 900),
+                          ("mut_nolatchmsg.cfg", False, 1, 600), ("mut_nowake.cfg", False, 1, 600)],   # generous: a timeout under load is exit 2, not a verdict
+                  gen="sim_t.cfg", keep=8),
     "thorough": dict(design=[("fwd_q.cfg", True, 8, 840), ("fwd_t3n.cfg", True, 6, 840), ("fwd_t3s.cfg", True, 2, 600),
                              ("fwd_live.cfg", True, 2, 800), ("fwd_draft.cfg", True, 2, 600),
                              ("mut_nolatchmsg.cfg", False, 1, 300), ("mut_nolatchack_noclosesend.cfg", False, 1, 300),
@@ -66,19 +66,13 @@ def klass(s):
     return "none"
 
 
-def load_extra_findings(c):
-    p = os.path.join(ROOT, "proposed", "C06-known.json")
-    if os.path.exists(p):
-        c.findings += json.load(open(p))
-
-
 def run(c, a):
     prof = PROFILES[c.tier]
-    load_extra_findings(c)
     c.assumptions += [
         "grpc-go is the transport on both sides (TCP loopback, ports chosen by the OS); its stream semantics are modelled in "
         "Forwarder.tla, not verified",
-        "the scripted source returns when its Recv loop ends (half-close or cancel), as Temporal's stream sender does",
+        "the scripted source either returns when its Recv loop ends (coop, as Temporal's stream sender does) or ignores the half-close "
+        "and returns only when its stream's context is done (silent); watermarks either increase or repeat / step back (payload)",
         "Send failures are injected around the real objects (server stream interceptor / AdminServiceClient wrapper); an "
         "unknown kind is a message with nil attributes",
         "the proxy's internal interleavings are whatever the Go scheduler produces; bounded waits (3 s) only for the "
@@ -135,17 +129,19 @@ def run(c, a):
         scheds = []
         for i, s in enumerate(scripts):
             for mode in ("default", "lcm"):
-                d = dict(s)
-                d["id"] = "%s-%d-%s" % (prof["gen"][:-4], i, mode)
-                d["mode"] = mode
-                scheds.append(d)
+                for payload in ("inc", "flat"):
+                    d = dict(s)
+                    d["id"] = "%s-%d-%s-%s" % (prof["gen"][:-4], i, mode, payload)
+                    d["mode"] = mode
+                    d["payload"] = payload
+                    scheds.append(d)
         total_scheds = len(scheds)
         if prof["keep"] > 1:
             # seeded stratified sample: 1/keep of every (first end / fault, sync, mode) class, at least 4 of each
             rng = random.Random(c.seed)
             groups = {}
             for s in scheds:
-                groups.setdefault((klass(s), s["sync"], s["mode"]), []).append(s)
+                groups.setdefault((klass(s), s["sync"], s["mode"], s.get("src", "coop"), s["payload"]), []).append(s)
             scheds = []
             for k in sorted(groups, key=str):
                 g = groups[k]
